@@ -19,14 +19,18 @@ A_TRUE_OBJECT = "A"    # present masked `true` field: generated code = presence 
 B_EMPTY_ARRAY = "B"    # empty array/dict that must be written: generated code `00`; onthefly `01 00` (size 1, count 0)
 C_REPAIR = "C"         # WriteTL1 of n*[T] whose length differs from n: generated code reports an error; onthefly resizes the tuple to n
 D_DUP_FIRST = "D"      # duplicate dictionary keys: generated code keeps the last value, onthefly the first
-F_NEGZERO = "F"        # float -0.0 is "empty" for generated code (float compare), not for onthefly (it keeps floats as integers)
+F_NEGZERO = "F"        # (legacy) float compare `x != 0` in the TL2 emptiness test: -0.0 is "empty"; was the generated code's behaviour (L2), never onthefly's
 S_TRUE_PARSED = "S"    # object in the position of an unmasked empty-struct field: generated code skips it by size, onthefly parses it
 T_TUPLE_COUNT = "T"    # ReadTL2 of a dynamic-size tuple: generated code rejects count > remaining bytes, onthefly allocates count elements
 N_NO_SANITY = "N"      # ReadTL1: generated code (--checkLengthSanity) rejects a count n with n*4 > remaining bytes, onthefly has no such check
 # A, B, D and T were genuine defects of the interpreter repaired in /repo (fix: commits 360642cb, 416c533f, 92d22a53, 1a52b76f: see known_findings.json `fixed`);
 # their switches stay in the model so that the repaired behaviour is what is predicted, but they are no longer part of ALL:
 # if one of them returns, the disagreement is not reproduced by the model and is reported as a violation.
-ALL = frozenset("CFSN")
+# F was a genuine defect of the GENERATED code (lead L2: `x != 0` is false for -0.0, the sign was lost through TL2), repaired in the
+# generator (`TypeRWPrimitive.nonZeroCondition`: `(x != 0 || 1/x < 0)`, a float is empty iff its bit pattern is zero, which is what
+# the interpreter always did).  The reference (no switch) now has the repaired behaviour; switch F selects the old float compare and
+# is in no prediction: if generated code loses -0.0 again, its answer is not reproduced and C12 reports a violation.
+ALL = frozenset("CSN")
 
 RUNAWAY = 1 << 30      # elements; from here on onthefly is predicted to die (n interface values + n objects: tens of GB)
 QUIET = 4096           # up to here an allocation "out of thin air" is harmless; in between the outcome depends on the machine:
@@ -170,9 +174,9 @@ class Model:
 
     # ------------------------------------------------------------------ TL2 writer
     def prim_empty(self, p, x):
-        if p == "float32" and not self.on(F_NEGZERO):
+        if p == "float32" and self.on(F_NEGZERO):
             return x % 2 ** 31 == 0
-        if p == "float64" and not self.on(F_NEGZERO):
+        if p == "float64" and self.on(F_NEGZERO):
             return x % 2 ** 63 == 0
         if p == "string":
             return len(x) == 0
